@@ -267,17 +267,14 @@ func splitNode[T any](n *node[T], pos int) (*node[T], error) {
 	if err != nil {
 		return nil, err
 	}
+	// 后一段继续使用 n 本身，而不是新建节点：OPTIONS 和 405 的处理方法是通过
+	// builder(n) 生成的，它们持有的 n 必须始终是保存着这些处理方法的节点。
 	ret := p.newChild(segs[0])
-	c := ret.newChild(segs[1])
-	c.handlers = n.handlers
-	c.methodIndex = n.methodIndex
-	c.children = n.children
-	c.indexes = n.indexes
-	for _, item := range c.children {
-		item.parent = c
-	}
+	n.parent = ret
+	n.segment = segs[1]
+	ret.children = append(ret.children, n)
 
-	// ret 和 c 的内容在 newChild 之后被修改，所以需要对其子元素重新排序。
+	// ret 和 p 的子元素被修改，需要重新排序。
 	ret.sort()
 	p.sort()
 
